@@ -19,6 +19,7 @@ import (
 	"github.com/LemoFoundationLtd/lemochain-core/chain/account"
 	"github.com/LemoFoundationLtd/lemochain-core/chain/deputynode"
 	"github.com/LemoFoundationLtd/lemochain-core/chain/params"
+	"github.com/LemoFoundationLtd/lemochain-core/chain/transaction"
 	"github.com/LemoFoundationLtd/lemochain-core/chain/types"
 	"github.com/LemoFoundationLtd/lemochain-core/common"
 	"github.com/LemoFoundationLtd/lemochain-core/common/crypto"
@@ -48,8 +49,14 @@ type adapter struct {
 	addrs                  []common.Address
 	r1k, poork             *ecdsa.PrivateKey
 	r1, r2, poor, contract common.Address
+	y                      common.Address // an address nothing committed ever pays before "cfwd"
 	side                   int
+	used                   map[string]bool
 }
+
+// the order in which the miner tries the not yet offered transactions on a throwaway block before the real one
+var canon = []string{"fund", "create", "vote", "spend", "votep", "call", "revert", "boxok", "boxbad", "boxfull", "cfwd", "poor", "badsig",
+	"overspend", "votebad", "modsig"}
 
 func detKey(tag byte) *ecdsa.PrivateKey {
 	b := make([]byte, 32)
@@ -87,6 +94,7 @@ func (a *adapter) init() {
 	a.r1 = crypto.PubkeyToAddress(a.r1k.PublicKey)
 	a.r2 = crypto.PubkeyToAddress(detKey(2).PublicKey)
 	a.poor = crypto.PubkeyToAddress(a.poork.PublicKey)
+	a.y = crypto.PubkeyToAddress(detKey(4).PublicKey)
 	a.txs = map[string]*types.Transaction{}
 	f, fk := a.w.Founder, a.w.FounderKey
 	lemo := int64(1000000000) // amounts in units that keep r1 able to pay gas: 1e18 mo = 1 LEMO
@@ -116,8 +124,18 @@ func (a *adapter) init() {
 	a.mk("call", f, fk, &a.contract, 3*lemo, params.OrdinaryTx, []byte{1, 2, 3, 4}, 200000)
 	a.mk("revert", f, fk, nil, 0, params.CreateContractTx, common.FromHex("0x602a60005560006000fd"), 500000)
 	// boxes: the box transaction pays its own gas; every sub-transaction is signed and paid by its own sender
-	sub := func(from common.Address, key *ecdsa.PrivateKey, amount int64, gas uint64, tag string) *types.Transaction {
-		tx := types.NewTransaction(from, a.r2, big.NewInt(amount), gas, gasPrice, nil, params.OrdinaryTx, node.ChainID, uint64(node.GenesisTime)+1000, "", tag)
+	// cfwd: init code CALLs y with 1 wei (gas of a CALL with value depends on whether y is an empty account), no runtime code
+	a.mk("cfwd", f, fk, nil, 5, params.CreateContractTx, common.FromHex("0x6000600060006000600173"+hex.EncodeToString(a.y.Bytes())+"6000f15060006000f3"), 500000)
+	// modsig: r1 hands its account to another signer; r1's own signature authorises nothing afterwards
+	{
+		data, err := json.Marshal(transaction.ModifySigners{Signers: types.Signers{{Address: crypto.PubkeyToAddress(a.w.Outsider.PublicKey), Weight: 100}}})
+		if err != nil {
+			panic(err)
+		}
+		a.mk("modsig", a.r1, a.r1k, &a.r1, 0, params.ModifySignersTx, data, 200000)
+	}
+	sub := func(to common.Address, from common.Address, key *ecdsa.PrivateKey, amount int64, gas uint64, tag string) *types.Transaction {
+		tx := types.NewTransaction(from, to, big.NewInt(amount), gas, gasPrice, nil, params.OrdinaryTx, node.ChainID, uint64(node.GenesisTime)+1000, "", tag)
 		stx, err := types.DefaultSigner{}.SignTx(tx, key)
 		if err != nil {
 			panic(err)
@@ -136,10 +154,12 @@ func (a *adapter) init() {
 		}
 		a.txs[kind] = stx
 	}
-	mkbox("boxok", sub(f, fk, 5, 30000, "bo1"), sub(f, fk, 6, 30000, "bo2"))
-	mkbox("boxfull", sub(f, fk, 7, 30000, "bf1"), sub(f, fk, 8, blockGasLimit+500000, "bf2"))
-	mkbox("boxbad", sub(f, fk, 9, 30000, "bb1"), sub(a.poor, a.poork, 1, 30000, "bb2"))
-	a.addrs = append([]common.Address{f, a.r1, a.r2, a.poor, a.contract, crypto.CreateContractAddress(f, a.txs["revert"].Hash())}, a.w.Miners...)
+	// the first sub-transaction of the two boxes that are never packaged pays y: nothing of it may survive the box
+	mkbox("boxok", sub(a.r2, f, fk, 5, 30000, "bo1"), sub(a.r2, f, fk, 6, 30000, "bo2"))
+	mkbox("boxfull", sub(a.y, f, fk, 7, 30000, "bf1"), sub(a.r2, f, fk, 8, blockGasLimit+500000, "bf2"))
+	mkbox("boxbad", sub(a.y, f, fk, 9, 30000, "bb1"), sub(a.r2, a.poor, a.poork, 1, 30000, "bb2"))
+	a.addrs = append([]common.Address{f, a.r1, a.r2, a.poor, a.y, a.contract, crypto.CreateContractAddress(f, a.txs["revert"].Hash()),
+		crypto.CreateContractAddress(f, a.txs["cfwd"].Hash())}, a.w.Miners...)
 }
 
 func (a *adapter) destroy() {
@@ -164,8 +184,8 @@ func (a *adapter) Reset(init map[string]tla.Value) (engine.Fields, error) {
 	a.c = a.w.NewNode(filepath.Join(base, "C"))
 	a.tip = a.a.Genesis
 	a.chain = nil
-	a.chain = nil
 	a.height = 0
+	a.used = map[string]bool{}
 	return engine.Fields{}, nil
 }
 
@@ -249,8 +269,28 @@ func (a *adapter) Apply(s engine.Step) (engine.Fields, error) {
 	rank := (a.height - 1) % nDeputies
 	extra := fmt.Sprintf("h%d", a.height)
 	fl := engine.Fields{}
-	// node A: the honest miner, offered the whole candidate list
 	small := func(h *types.Header) { h.GasLimit = blockGasLimit }
+	// node A first tries every transaction it has not been offered yet on a block it then throws away (a mining attempt
+	// that lost its slot, a fork it abandoned): whatever that left in caches or in memory must not matter afterwards
+	{
+		var pre types.Transactions
+		for i := range canon {
+			k := canon[i] // the order in which most of them are valid; every fourth scenario tries another order
+			if a.seq%4 == 3 {
+				k = canon[(i+a.seq+a.height)%len(canon)]
+			}
+			if !a.used[k] {
+				pre = append(pre, a.txs[k])
+			}
+		}
+		if _, _, err := a.a.BuildWith(a.tip, rank, 0, pre, extra+"pre", small, false); err != nil {
+			return nil, fmt.Errorf("miner A throwaway block: %v", err)
+		}
+		for _, k := range s.Act.Args[0].Strs() {
+			a.used[k] = true
+		}
+	}
+	// node A: the honest miner, offered the whole candidate list
 	blk, invalid, err := a.a.BuildWith(a.tip, rank, 0, cands, extra, small, true)
 	if err != nil {
 		return nil, fmt.Errorf("miner A: %v", err)
